@@ -286,6 +286,12 @@ class Spider(Box):
         data = cat.rsubs(self.data, *args)
         return type(self)(len(self.dom), len(self.cod), phase=data)
 
+    def lambdify(self, *symbols, **kwargs):
+        from sympy import lambdify
+        data = lambdify(symbols, self.data, **kwargs)
+        return lambda *xs: type(self)(
+            len(self.dom), len(self.cod), phase=data(*xs))
+
     def grad(self, var, **params):
         if var not in self.free_symbols:
             return Sum([], self.dom, self.cod)
@@ -350,6 +356,11 @@ class Scalar(Box):
     def subs(self, *args):
         data = cat.rsubs(self.data, *args)
         return Scalar(data)
+
+    def lambdify(self, *symbols, **kwargs):
+        from sympy import lambdify
+        data = lambdify(symbols, self.data, **kwargs)
+        return lambda *xs: Scalar(data(*xs))
 
     def dagger(self):
         return Scalar(self.data.conjugate())
